@@ -3,5 +3,5 @@ CONSTANTS
   NMsgs = 3
   MaxParts = 3
   Mode = "summary"
-INVARIANTS OrderIndependent Export
+INVARIANTS OrderIndependent WithinIndependent Export
 CHECK_DEADLOCK FALSE
